@@ -18,7 +18,9 @@ Buffers   == {"quote", "untouched"}                       \* device wrote a quot
 Devices   == [rr : ResCodes, qr : ResCodes, st : Statuses, ol : OutLens, buf : Buffers]
 Providers == {"bytes", "error", "both", "empty", "unsupportedNoDevice", "unsupportedFileDevice"}
 Vias      == {"device", "provider"}
-Priors    == {"none", "good"}      \* good: a successful GetRawQuote through a device took place just before, in the same process
+Priors    == {"none", "good", "provSupported", "provUnsupported"}
+\*   good: a successful GetRawQuote through a device took place just before, in the same process;
+\*   provSupported / provUnsupported: an earlier call went through another quote provider that said it is supported / not supported
 
 OutLenValid(ol) == ol \in {"one", "exact", "buf"}
 
@@ -36,7 +38,7 @@ Init == /\ via \in Vias
         /\ (via = "device" => prov = "bytes")              \* irrelevant dimension pinned
         /\ (via = "provider" => dev = GoodDevice)
         /\ prior \in Priors
-        /\ pc = (IF prior = "good" THEN "prior" ELSE "start") /\ ioctls = <<>> /\ opened = FALSE /\ result = "none"
+        /\ pc = (IF prior # "none" THEN "prior" ELSE "start") /\ ioctls = <<>> /\ opened = FALSE /\ result = "none"
 
 \* an earlier, successful call: it leaves nothing behind that the next call could see (each call builds its own request)
 PriorCall == /\ pc = "prior" /\ pc' = "start"
